@@ -44,7 +44,7 @@ def _ipf(ctx):
     if ctx.quick:
         vecs = ctx.tlc_dump("IPFilter_MC", ipf_cfg(2, 1, 2, True), timeout=600, label="decision table, width 2, <=1 allow, <=2 block, chains")
     else:
-        ctx.tlc_mc("IPFilter_MC", ipf_cfg(2, 1, 2, True).replace("SPECIFICATION Spec", "SPECIFICATION Spec"), timeout=900,
+        ctx.tlc_mc("IPFilter_MC", ipf_cfg(2, 1, 2, True), timeout=900,
                    label="decision table with chains", deadlock=False)
         vecs = ctx.tlc_dump("IPFilter_MC", ipf_cfg(2, 2, 2, False), timeout=1500, label="decision table, width 2, <=2 allow, <=2 block")
     seen, uniq = set(), []
@@ -82,7 +82,7 @@ def _ipf(ctx):
     if allowed < len(ev) // 10 or allowed > len(ev) * 9 // 10:
         ctx.inconclusive("C05 ipfilter trace is vacuous: %d of %d decisions are 'allow'" % (allowed, len(ev)))
     bad = {}
-    chunk = 2000
+    chunk = 5000 if ctx.quick else 10000
     for k in range(0, len(ev), chunk):
         part = ev[k:k + chunk]
         p = ctx.write_ndjson("c05_ipf_%d.ndjson" % k, part)
@@ -124,12 +124,13 @@ def _sig(clause, cache, q, cul, own, cown, exp, got):
     return sig
 
 
-def _what(clause, cache, q, o, z, c01, cul):
+def _what(clause, cache, q, o, z, c01, cul, own=None):
     w = "request %s: mux with IP filters%s answers %s; " % (R.show_req(q), " and route cache" if cache else "", R.show(o))
+    route = R.show(c01) if c01 else ("entry %s" % own.get("pos") if own and own.get("code") == 0 else "none (%s)" % (own or {}).get("code"))
     if clause == "i":
-        w += "the client is denied by a filter applying to the request (route per routing rules: %s)" % R.show(c01)
+        w += "the client is denied by a filter applying to the request (route per routing rules: %s)" % route
     else:
-        w += "the client is allowed by every filter, the filter-less twin answers %s, the routing rules say %s" % (R.show(z), R.show(c01))
+        w += "the client is allowed by every filter, the filter-less twin answers %s, the routing rules say %s" % (R.show(z), route)
     if cul:
         w += "; after earlier request %s" % R.show_req(cul[0])
     return w
@@ -224,6 +225,6 @@ def _tv(ctx):
             clause = "i" if rec["den"] and (code < 400 or code > 499 or (rec["own"]["code"] == 0 and code != 403)) else "ii"
             sig = _sig(clause, cache, e["q"], e.get("cul"), rec.get("own"), rec.get("cown"), rec["exp"], o)
             hit[jdump(sig)] = hit.get(jdump(sig), 0) + 1
-            ctx.violation(sig, _what(clause, cache, e["q"], o, z, rec["exp"] if rec["all"] else {"code": "(route %s)" % rec["own"]}, e.get("cul")),
+            ctx.violation(sig, _what(clause, cache, e["q"], o, z, rec["exp"] if rec["all"] else None, e.get("cul"), rec.get("own")),
                           {"cfg": cfg, "q": e["q"], "observed": o, "twin": z, "contract": rec, "culprit": e.get("cul")})
     ctx.notes.append({"trace_c05_failures": hit})
